@@ -114,6 +114,7 @@ func verifC32ReadAll(r io.Reader) ([]byte, error) {
 // A parallel range fetch returns exactly the resource or an error, and returns.
 //
 //verif:sched quick=1 thorough=2
+//verif:race
 //verif:stub (*net/http.Client).Head = verifC32Head
 //verif:stub (*net/http.Client).Get = verifC32Get
 //verif:stub (*net/http.Client).Do = verifC32Do
@@ -134,6 +135,7 @@ var verifC32Three bool
 // Hedged duplicates never change the result.
 //
 //verif:sched quick=0 thorough=1
+//verif:race
 //verif:stub (*net/http.Client).Head = verifC32Head
 //verif:stub (*net/http.Client).Get = verifC32Get
 //verif:stub (*net/http.Client).Do = verifC32Do
